@@ -254,10 +254,10 @@ Section Screw.
     if ay <=? vy p then (if (by_ >? vy p) && (dn <? o0 O) then 1%Z else 0%Z)
     else (if (by_ <=? vy p) && (dn >? o0 O) then (-1)%Z else 0%Z).
 
-  (* func VertexToLine(vertex, closed=true): the closing segment is added unless the first
-     and last vertex already coincide within `tolerance` *)
-  Definition v2equals (a b : V2) (tol : T) : bool :=
-    (oabs O (vx a - vx b) <=? tol) && (oabs O (vy a - vy b) <=? tol).
+  (* func VertexToLine(vertex, closed=true): the closing segment is added unless the last vertex
+     IS the first one (`vertex[0] != vertex[n-1]`, sdfx bf5538d; before that: unless the two
+     coincide within `tolerance`) *)
+  Definition v2eqb (a b : V2) : bool := (vx a =? vx b) && (vy a =? vy b).
 
   Fixpoint segments (l : list V2) : list LineInfo :=
     match l with
@@ -265,10 +265,10 @@ Section Screw.
     | _ => []
     end.
 
-  Definition polygon_lines (tol : T) (l : list V2) : list LineInfo :=
+  Definition polygon_lines (l : list V2) : list LineInfo :=
     match l with
     | [] => []
-    | v0 :: _ => if v2equals v0 (last l v0) tol then segments l else segments (l ++ [v0])
+    | v0 :: _ => if v2eqb v0 (last l v0) then segments l else segments (l ++ [v0])
     end.
 
   (* func (s *MeshSDF2Slow) Evaluate: the exhaustive loop.  (MeshSDF2.Evaluate, which Polygon2D
@@ -279,7 +279,7 @@ Section Screw.
     let d := osqrt O d2 in
     if Z.eqb wn 0 then d else - d.
 
-  Definition polygon_eval (tol : T) (l : list V2) (p : V2) : T := mesh_eval (polygon_lines tol l) p.
+  Definition polygon_eval (l : list V2) (p : V2) : T := mesh_eval (polygon_lines l) p.
 
 End Screw.
 
